@@ -224,6 +224,18 @@ def rule_valid_first(ctx, py):
     bad = [n for n, ok in uses2 if not ok]
     ctx.check(uses2 and not bad, R, g, g._qual, "%d subscripts of index_map in coarsegrain_system" % len(uses2),
               "all after coarsegrain_grid validated the map", "map subscripted before validation")
+    # the map that is validated is the map the caller gave: no entry point rewrites it on the way (converting the entries to
+    # int first turns 0.5, '1' or True into indices the caller never named, and the type rule can no longer reject them)
+    for q_, p_ in (("simulate.simulate_script", "cgmap"), ("simulate.simulate", "cgmap"), ("coarsegrain.coarsegrain_system", "index_map"),
+                   ("coarsegrain.coarsegrain_grid", "index_map")):
+        h_ = py.fn(q_)
+        if p_ not in pyfe.params(h_):
+            continue
+        re_ = [st for st in ast.walk(h_) if isinstance(st, (ast.Assign, ast.AugAssign)) and any(
+            isinstance(t, ast.Name) and t.id == p_ for t in (st.targets if isinstance(st, ast.Assign) else [st.target]))]
+        ctx.check(not re_, R, re_[0] if re_ else h_, q_, "%s reaches the validity check as given" % p_, "",
+                  "`%s` rewrites the map before it is validated: entries the documented rules reject (non-integers) are "
+                  "turned into valid-looking indices" % (pyfe.src(re_[0])[:60] if re_ else ""), nontrivial=False)
     ctx.floor(R, 2)
 
 
